@@ -106,7 +106,7 @@ def raw_of(m):
             continue
         parts.append(f"{tag}={val}")
     parts.append("10=000")
-    return ("\x01".join(parts) + "\x01").encode("latin-1")
+    return ("\x01".join(parts) + "\x01").encode("utf-8", "replace")
 
 
 def build_conn(pre, cls=RecConn):
